@@ -359,10 +359,23 @@ func observeLevel(p any) string {
 
 // observeAll: the full observation vector of an object, including the embedded
 // lower levels reached through the accessors.
-func observeAll(p any) string {
+func observeAll(p any) string { return observeAllOrder(p, false) }
+
+// observeAllOrder renders the same vector but, when reverse is set, *calls* the
+// observers in the opposite order (the rendering order stays canonical).  On code
+// whose queries have no side effects the result is the same.
+func observeAllOrder(p any, reverse bool) string {
+	vals := make([]string, len(observerNames))
+	for j := range observerNames {
+		i := j
+		if reverse {
+			i = len(observerNames) - 1 - j
+		}
+		vals[i] = observe(p, observerNames[i])
+	}
 	var sb strings.Builder
-	for _, n := range observerNames {
-		sb.WriteString(observe(p, n))
+	for _, v := range vals {
+		sb.WriteString(v)
 		sb.WriteByte('\n')
 	}
 	return sb.String()
